@@ -31,10 +31,13 @@ func (e *Ext) Decoded() []Atom {
 				}
 			}
 			for _, a := range as {
-				a.Cond = a.Cond || cond
+				if !a.Unrolled {
+					a.Cond = a.Cond || cond
+				}
 				if a.At == nil {
 					a.At = in
 				}
+				a.FI = e.FI
 				out = append(out, *a)
 			}
 		}
@@ -290,6 +293,9 @@ func isBufferLike(v ssa.Value) bool {
 func (e *Ext) decStore(st *ssa.Store, names map[ssa.Value]string) []*Atom {
 	p, ok := e.FieldPath(st.Addr)
 	if !ok {
+		if rows := e.tableStore(st, names); rows != nil {
+			return rows
+		}
 		return nil
 	}
 	// c.F = [N]T{a, b, c}: the literal is built in a local array and loaded
@@ -620,7 +626,7 @@ func foldLoops(e *Ext, as []Atom) []Atom {
 	for _, a := range as {
 		b := blockOf[a.Pos]
 		var h *ssa.BasicBlock
-		if b != nil {
+		if b != nil && !a.Unrolled {
 			h = header(b)
 		}
 		if h == nil {
@@ -719,4 +725,206 @@ func intBitsOf(t types.Type) int {
 		return 32
 	}
 	return 64
+}
+
+// tableStore: `*row.ptr = <decode>` inside a loop over a constant table of
+// {…, ptr: &recv.F} rows (a local slice/array literal). The loop is unrolled:
+// one atom per row, in row order, at entry offset + i·stride. Anything about
+// the shape that is not recognised yields one unknown atom (never silence).
+func (e *Ext) tableStore(st *ssa.Store, names map[ssa.Value]string) []*Atom {
+	ld, ok := st.Addr.(*ssa.UnOp)
+	if !ok || ld.Op != token.MUL {
+		return nil
+	}
+	fa, ok := ld.X.(*ssa.FieldAddr)
+	if !ok {
+		return nil
+	}
+	tmpl := e.srcOfValue(st.Val, st, names)
+	if tmpl == nil {
+		return nil // not a decode
+	}
+	unknown := func(why string) []*Atom {
+		return []*Atom{{Kind: "unknown", Expr: "store through a pointer taken from a table: " + why, Pos: st.Pos()}}
+	}
+	// element: a local copy of table[idx] or table[idx] itself
+	var elem *ssa.IndexAddr
+	switch x := fa.X.(type) {
+	case *ssa.IndexAddr:
+		elem = x
+	case *ssa.Alloc:
+		n := 0
+		for _, r := range *x.Referrers() {
+			if s2, ok := r.(*ssa.Store); ok && s2.Addr == ssa.Value(x) {
+				n++
+				if l2, ok := s2.Val.(*ssa.UnOp); ok && l2.Op == token.MUL {
+					elem, _ = l2.X.(*ssa.IndexAddr)
+				}
+			}
+		}
+		if n != 1 {
+			elem = nil
+		}
+	}
+	if elem == nil {
+		return unknown("the row is not an element of a local table")
+	}
+	var arr *ssa.Alloc
+	switch t := elem.X.(type) {
+	case *ssa.Slice:
+		arr, _ = t.X.(*ssa.Alloc)
+		if t.Low != nil || t.High != nil {
+			arr = nil
+		}
+	case *ssa.Alloc:
+		arr = t
+	}
+	if arr == nil {
+		return unknown("the table is not a local array/slice literal")
+	}
+	at, ok := deref(arr.Type()).Underlying().(*types.Array)
+	if !ok {
+		return unknown("the table is not an array")
+	}
+	n := int(at.Len())
+	// loop counter: idx = φ (+1 for range loops)
+	var phi *ssa.Phi
+	switch ix := elem.Index.(type) {
+	case *ssa.Phi:
+		phi = ix
+	case *ssa.BinOp:
+		if k, ok := constI(ix.Y); ok && k == 1 && ix.Op == token.ADD {
+			phi, _ = ix.X.(*ssa.Phi)
+		}
+	}
+	if phi == nil {
+		return unknown("the row index is not a loop counter")
+	}
+	hb := phi.Block()
+	// rows
+	paths := make([]string, n)
+	for _, r := range *arr.Referrers() {
+		ia, ok := r.(*ssa.IndexAddr)
+		if !ok {
+			continue
+		}
+		i64, isK := constI(ia.Index)
+		if !isK {
+			continue
+		}
+		i := int(i64)
+		if i < 0 || i >= n {
+			continue
+		}
+		for _, rr := range *ia.Referrers() {
+			s2, ok := rr.(*ssa.Store)
+			if !ok || s2.Addr != ssa.Value(ia) {
+				continue
+			}
+			l2, ok := s2.Val.(*ssa.UnOp)
+			if !ok || l2.Op != token.MUL {
+				continue
+			}
+			lit, ok := l2.X.(*ssa.Alloc)
+			if !ok {
+				continue
+			}
+			for _, lr := range *lit.Referrers() {
+				f2, ok := lr.(*ssa.FieldAddr)
+				if !ok || f2.Field != fa.Field {
+					continue
+				}
+				for _, fr := range *f2.Referrers() {
+					if s3, ok := fr.(*ssa.Store); ok && s3.Addr == ssa.Value(f2) {
+						if p, ok := e.FieldPath(s3.Val); ok {
+							paths[i] = p
+						}
+					}
+				}
+			}
+		}
+	}
+	for i, p := range paths {
+		if p == "" {
+			return unknown(fmt.Sprintf("row %d does not point at a receiver field", i))
+		}
+	}
+	// any other write to the table makes the rows unknown
+	for _, r := range *arr.Referrers() {
+		switch y := r.(type) {
+		case *ssa.IndexAddr:
+			if _, isK := constI(y.Index); !isK {
+				for _, rr := range *y.Referrers() {
+					if s2, ok := rr.(*ssa.Store); ok && s2.Addr == ssa.Value(y) {
+						return unknown("the table is written through a variable index")
+					}
+				}
+			}
+		case *ssa.Slice:
+			for _, rr := range *y.Referrers() {
+				if ia, ok := rr.(*ssa.IndexAddr); ok {
+					for _, r3 := range *ia.Referrers() {
+						if s2, ok := r3.(*ssa.Store); ok && s2.Addr == ssa.Value(ia) {
+							return unknown("the table is written inside the loop")
+						}
+					}
+				}
+			}
+		}
+	}
+	// offset: every header φ in the template's offset becomes entry + i·stride
+	if tmpl.OffForm == nil {
+		return unknown("the decoded value has no offset form")
+	}
+	var entries, backs []int
+	for i, p := range hb.Preds {
+		if hb.Dominates(p) {
+			backs = append(backs, i)
+		} else {
+			entries = append(entries, i)
+		}
+	}
+	if len(entries) != 1 || len(backs) != 1 {
+		return unknown("the loop has several entries or back edges")
+	}
+	ec := e.FI.CtxEdge(hb.Preds[entries[0]], hb)
+	bc := e.FI.CtxEdge(hb.Preds[backs[0]], hb)
+	type sub struct {
+		t      lin.Term
+		entry  lin.Form
+		stride int64
+	}
+	var subs []sub
+	for _, t := range tmpl.OffForm.Terms() {
+		v, isLen := e.FI.TermValue(t)
+		p2, isPhi := v.(*ssa.Phi)
+		if isLen || !isPhi || p2.Block() != hb {
+			continue
+		}
+		d := bc.Lin(p2.Edges[backs[0]]).Sub(lin.V(t))
+		k, isK := d.ConstVal()
+		if !isK || !k.IsInt64() {
+			return unknown("the offset does not advance by a constant per row")
+		}
+		subs = append(subs, sub{t, ec.Lin(p2.Edges[entries[0]]), k.Int64()})
+	}
+	var out []*Atom
+	for i := 0; i < n; i++ {
+		a := *tmpl
+		off := tmpl.OffForm.Clone()
+		for _, s := range subs {
+			coef := off.Coef[s.t]
+			delete(off.Coef, s.t)
+			off = off.Add(s.entry.AddK(int64(i) * s.stride).Scale(coef))
+		}
+		a.OffForm = &off
+		a.Off = e.renderForm(off, names)
+		a.Field = paths[i]
+		a.At = st
+		a.Unrolled = true
+		a.Cond = e.dataDependent(hb.Preds[entries[0]])
+		a.Pos = st.Pos()
+		out = append(out, &a)
+	}
+	return out
 }
